@@ -23,7 +23,8 @@ SPEC = {
         "the abstraction of the IMAP-visible state by the log of committed visible statements: SQLite applies a transaction atomically and the statements are "
         "deterministic (SQLite's own atomicity and WAL recovery are TRUSTED, not verified)",
         "statement table (which db.Transaction methods change the acknowledged state): every method not in db.ReadOnly and not a \\Recent-only update counts as visible (conservative)",
-        "interposers harness/interpose.go + generated interpose_gen.go around the public db.Client/db.Transaction/store.Store interfaces; verifhooks.NewSQLiteDB; Server.VerifBarrier/VerifStates",
+        "interposers harness/interpose.go + generated interpose_gen.go (tools/c07gen) around the public db.Client/db.Transaction/store.Store interfaces; the wrappers embed the interfaces and the oracle and the trace dialect "
+        "compare the method sets at run time (a changed db interface is reported as `db interface changed: run tools/c07gen`, it does not break the harness build); verifhooks.NewSQLiteDB; Server.VerifBarrier/VerifStates",
         "facts translator harness/facts_crash.go (go/ast)",
     ],
     "assumptions": [
@@ -32,8 +33,9 @@ SPEC = {
         "death inside store.Set is modelled at two points (header+nonce only; some blocks written) and exercised on the real code by killing the process from inside the reader passed to the real Set",
         "the fault enumeration runs one session and one connector; concurrent operations of other sessions during the interrupted operation are not enumerated",
         "\\Recent and the \\Marked/\\Unmarked LIST attributes are session bookkeeping and not part of the compared state",
-        "theorem fail_atomic holds with the named hypothesis HandlerInvisible (the error handler commits nothing visible); it is false for APPEND (fail_atomic_append_counterexample, replayed by the oracle); "
-        "listed_is_fetchable holds with the store discipline; it is false for the re-download of a lost cache file (listed_is_fetchable_redownload_counterexample, DESIGN #23, replayed by the oracle)",
+        "theorem fail_atomic holds with the named hypothesis HandlerInvisible (the error handler commits nothing visible); it is false for APPEND (fail_atomic_append_counterexample, replayed by the oracle: known finding); "
+        "listed_is_fetchable holds with the store discipline (needed: listed_is_fetchable_needs_discipline); the re-download of a lost cache file writes the file of an existing row, which is fine because a truncated file "
+        "is reported by store.Get since /repo ad3c4e0 (DESIGN #23 repaired; the oracle's killnonce/killhalf/errhalf runs on the re-download would show a regression as signature=partial-cache-file-of-existing-row-served-as-empty-message)",
         "error handlers (`handlerOf`) are modelled for APPEND (recovery mailbox) and connector MessagesCreated (cache clean-up); they are exercised by the oracle's injected errors but not trace-compared",
         "the connector is gluon's Dummy plus literals kept on disk (so that a restarted server can re-download); remote side effects of an interrupted operation are not rolled back and not part of the property",
     ],
